@@ -34,6 +34,9 @@ func runC02(c *ev.Ctx) {
 	c.Assume("the VP8L alpha_is_used bit is a hint: set-on-opaque is not flagged")
 	pc := newPairCover()
 	n := c.N(6000, 300000)
+	if getenvInt("VERIF_C02_ONLYBIG", 0) == 1 { // drill switch: (almost) only the size-driven corner
+		n = 16
+	}
 	var cases []ev.Case
 	for i := 0; i < n; i++ {
 		r := rng(c, i)
@@ -282,7 +285,7 @@ func cmpYCbCrGo(a, b *image.YCbCr) string {
 // partition exceeds the 19-bit length field of the VP8 frame tag. Encode must either fail or
 // emit a decodable file.
 func c02BigPartition(c *ev.Ctx, idx int) {
-	const side = 9200
+	const side = 10400 // ~422 000 macroblocks: the first partition passes 2^19 bytes (measured: ~700 KB)
 	cs := ev.Case{Idx: idx, Desc: fmt.Sprintf("noise %dx%d lossy Q100 M0 (first partition > 2^19 bytes)", side, side)}
 	m := image.NewNRGBA(image.Rect(0, 0, side, side))
 	s := uint64(c.Seed)*2862933555777941757 + 3037000493
@@ -303,7 +306,7 @@ func c02BigPartition(c *ev.Ctx, idx int) {
 	c.Count("big_partition_cases", 1)
 	if err != nil {
 		c.Count("big_partition_encode_refused", 1)
-		c.Sample(map[string]any{"case": cs.Desc, "result": "Encode returned error: " + err.Error()})
+		c.Extra("big_partition_case", map[string]any{"case": cs.Desc, "result": "Encode returned error: " + err.Error()})
 		return
 	}
 	rep := func() any { return map[string]string{"generator": cs.Desc} }
@@ -312,7 +315,7 @@ func c02BigPartition(c *ev.Ctx, idx int) {
 		c.Violate(cs, "structure/"+is.Rule, map[string]string{"rule": is.Rule, "big": "1"}, is.Msg, rep())
 	}
 	if info != nil && len(info.Frames) == 1 && info.Frames[0].BS != nil {
-		c.Sample(map[string]any{"case": cs.Desc, "bytes": len(data), "part0_field": info.Frames[0].BS.Part0Len})
+		c.Extra("big_partition_case", map[string]any{"case": cs.Desc, "bytes": len(data), "part0_field": info.Frames[0].BS.Part0Len})
 	}
 	if _, err := webp.DecodeConfig(bytes.NewReader(data)); err != nil {
 		c.Violate(cs, "undecodable-by-package", map[string]string{"big": "1"}, "DecodeConfig: "+err.Error(), rep())
